@@ -26,6 +26,28 @@ MUTANTS = [
     ("C15", "areneigh-no-wrap-test", P + "rdgridspace.py", "        if self._boundary_conditions[\"z\"] == \"periodical\" :\n            dz = min(dz, abs(self.d-dz))", "        dz = min(dz, abs(self.d-dz))", "C15.DISP"),
     ("C01", "get-edge-directed", P + "rdgraphspace.py", "            if (edge.i==i and edge.j==j) or (edge.i==j and edge.j==i) :", "            if (edge.i==i and edge.j==j) :", "C01.NEIGH"),
     ("C01", "graph-neighbours-above-only", P + "kinetics.py", "        if j != position :\n            if system.space.get_edge(position, j) is not None :", "        if j > position :\n            if system.space.get_edge(position, j) is not None :", "C01.NEIGH"),
+    # ---- rules added in round 5
+    ("C01", "bc-z-gets-y", P + "librdengine.py", "ctypes.c_char_p((script.system.space.get_boundary_conditions()[\"z\"]).encode()),", "ctypes.c_char_p((script.system.space.get_boundary_conditions()[\"y\"]).encode()),", "C01.AXIS"),
+    ("C02", "module-level-cache", P + "librdengine.py", "def build_stoechiometric_difference_matrix(species, reactions) :", "_STO_CACHE = {}\ndef build_stoechiometric_difference_matrix(species, reactions) :\n    _STO_CACHE[len(species)] = len(reactions)", "C02.MEMO"),
+    ("C03", "graph-chemostat-test-in-loop", P + "kinetics.py", "        d += (d_rates[1] - d_rates[0])\n    \n    if apply_chemostats and system.get_chemostat(species, position):\n    \treturn UnitValue(0, \"molecule/s\").convert(units_system)", "        d += (d_rates[1] - d_rates[0])\n        if apply_chemostats and system.get_chemostat(species, position):\n            return UnitValue(0, \"molecule/s\").convert(units_system)", "C03.PY-ZERO"),
+    ("C04", "pow-int-division", E + "SimulationAlgorithm3DBase.hpp", "mesh_kd[i*n_species*6 + s*6+ n] = Dij/(mesh_edge*mesh_edge);", "mesh_kd[i*n_species*6 + s*6+ n] = Dij/pow(mesh_vol, 2/3);", "C04.HOMOG"),
+    ("C06", "exponent-overwritten", P + "units.py", "            dim[field] += se", "            dim[field] = se", "C06.EXPSUM"),
+    ("C18", "exponent-overwritten-c18", P + "units.py", "            dim[field] += se", "            dim[field] = se", "C18.EXPSUM"),
+    ("C06", "array-target-own-units", P + "units.py", "        if type(u) == str :\n            u =  parse_units(u)\n", "        if type(u) == str :\n            u =  parse_units(u)\n        elif type(u) == UnitArray :\n            u = self.units\n", "C06.DIMGUARD"),
+    ("C07", "tau-clock-not-dt", E + "TauLeap3D.hpp", "        Apply_nevt();\n        t += dt;", "        Apply_nevt();\n        t += 0.5*dt;", "C07.TAU"),
+    ("C08", "init-refuses-when-live", E + "engine.cpp", "    {\n    global_space_type = 0;", "    {\n    if(!global_algo_freed) return 5;\n    global_space_type = 0;", "C08.GLOBALS"),
+    ("C09", "complete-when-samples-used-up", E + "SimulationAlgorithm3DBase.hpp", "            Sample();\n            sample_pos ++;\n            }\n        }\n\n    void SampleOnInterval()", "            Sample();\n            sample_pos ++;\n            }\n        if(sample_pos>=n_samples) FlagAsComplete();\n        }\n\n    void SampleOnInterval()", "C09.COMPLETE"),
+    ("C10", "del-finalizes", P + "librdengine.py", "    def finalize(self) :\n        \n        self._lib.engineexport_finalize()", "    def finalize(self) :\n        \n        self._lib.engineexport_finalize()\n\n    def __del__(self) :\n        self.finalize()", "C10.RELEASE"),
+    ("C11", "environments-filtered", P + "librdengine.py", "        environments = script.system.network.environments\n", "        environments = [e for e in script.system.network.environments if e != \"unused\"]\n", "C11.ENV-RANGE"),
+    ("C12", "glued-coefficient", P + "rdnetwork.py", "                        label = token[0].strip()\n", "                        label = token[0].strip().lstrip(\"0123456789\")\n", "C12.ACCUM"),
+    ("C13", "network-setter-copies", P + "rdsystem.py", "        self._network = v\n", "        self._network = v.copy()\n", "C13.REGEN"),
+    ("C14", "poisson-loop-over-cells", E + "engine.cpp", "      for(size_t i=0; i<mesh_x.size(); i++)\n        {\n        mesh_x[i] = (mesh_x[i]>0)", "      for(int i=0; i<n_meshes; i++)\n        {\n        mesh_x[i] = (mesh_x[i]>0)", "C14.EVERY-ENTRY"),
+    ("C15", "areneigh-linear-shortcut", P + "rdgridspace.py", "        coord1 = self.get_cell_coordinates(self.get_cell_index(position1))", "        if isnumber(position1) and isnumber(position2) :\n            return abs(int(position1) - int(position2)) in (1, self.w, self.w*self.h)\n        coord1 = self.get_cell_coordinates(self.get_cell_index(position1))", "C15.DISP"),
+    ("C16", "dropped-cells-checked-for-env", P + "coarsegrain.py", "        if im[i] == -1 :\n            continue\n        if env_out[im[i]] == -2 :", "        if env_out[im[i]] == -2 :", "C16.ACCEPT"),
+    ("C16", "order-accumulator-hoisted", E + "SimulationAlgorithmGraphBase.hpp", "        for(int i=0;i<n_meshes;i++)\n          {\n          for(int r=0; r<n_reactions; r++)\n            {\n            double q = 0;", "        double q = 0;\n        for(int i=0;i<n_meshes;i++)\n          {\n          for(int r=0; r<n_reactions; r++)\n            {", "C16.RUNSUM"),
+    ("C18", "value-filter-without-plus", P + "units.py", "        value = float(tok[0])", "        import re\n        if re.match(r\"[+-]?(\\d+\\.?\\d*|\\.\\d+)([eE]-?\\d+)?$\", tok[0]) is None :\n            raise ValueError(\"not a number\")\n        value = float(tok[0])", "C18.VALUE-READ"),
+    ("C19", "duplicate-by-identity", P + "rdnetwork.py", "            if sd.get(s.label, None) != None : ", "            if self.get_species(s.label) is not s : ", "C19.VALID"),
+    ("C20", "labels-joined-to-text", P + "rdnetwork.py", "        sl = self.species_labels()\n        for i in range(len(self.reactions)):", "        sl = \", \".join(self.species_labels())\n        for i in range(len(self.reactions)):", "C20.MEMBER"),
     # ---- rules added in rounds 2-3
     ("C02", "nbr-table-coords-swapped", E + "SimulationAlgorithm3DBase.hpp", "this->mesh_neighbors[i*6+n] = GetNeighborIndex(xcoord, ycoord, zcoord, n);", "this->mesh_neighbors[i*6+n] = GetNeighborIndex(ycoord, xcoord, zcoord, n);", "C02.NBR-TABLE"),
     ("C02", "graph-edge-one-way", E + "SimulationAlgorithmGraphBase.hpp", "          mesh_neighbor_index[edge_j[i]].push_back(edge_i[i]);", "          mesh_neighbor_index[edge_j[i]].push_back(edge_j[i]);", "C02.NBR-TABLE"),
